@@ -12,7 +12,7 @@ from props.c02 import collect_simple
 from props.c03 import build_request, sym_bytes
 
 LEVEL = 'model_checking'
-FRAMINGS = ['cl-small', 'cl-1024', 'cl-1025', 'chunked', 'chunked+cl']
+FRAMINGS = ['cl-small', 'cl-1024', 'cl-1025', 'chunked', 'chunked+cl', 'cl-small+expect']
 CONSUME = ['none', 'one-byte', 'all-but-one', 'all-no-eof', 'all-eof']
 FINISH = ['respond', 'drop', 'into_writer']
 
@@ -25,7 +25,8 @@ def run(L, rep, tier, seed):
         fr = FRAMINGS[ctx.choose(len(FRAMINGS), 'framing')]
         co = CONSUME[ctx.choose(len(CONSUME), 'consume')]
         fin = FINISH[ctx.choose(len(FINISH), 'finish')]
-        data, body, declared, end, headlen = build_request(ctx, fr, tier, concrete_body=True)
+        # 'cl-small+expect': the client announces Expect: 100-continue but sends the body without waiting (it may: RFC 7231 5.1.1)
+        data, body, declared, end, headlen = build_request(ctx, fr.split('+expect')[0], tier, expect=fr.endswith('+expect'), concrete_body=True)
         nb = len(body)
         seg = 'choose' if (fr == 'cl-small' or (fr == 'cl-1025' and co in ('none', 'one-byte'))) and ctx.choose(2, 'segmented') else False
         cv = Conv(S, ctx, data, end='eof', short_reads=seg)
@@ -86,3 +87,73 @@ def run(L, rep, tier, seed):
     def known(label, sc):
         return 'chunked-body-not-drained' if label == 'chunked-body-left-unread' else None
     collect_simple(S, rep, 'C09', 'boundaries', known)
+    connection_options(S, rep, tier)
+
+
+OPTION_VALUES = [b'Upgrade-Insecure-Requests', b'keep-alive, Upgrade-Insecure-Requests', b'x-upgrade', b'keep-alive, closed', b'not-close, keep-alive',
+                 b'keep-alive', b'Keep-Alive, x']
+
+
+def connection_options(S, rep, tier):
+    """whatever the request side and the connection side of the library make of a Connection value (an option that merely
+    CONTAINS 'upgrade' or 'close'), they must agree: after a request with an unread Content-Length body, either the connection
+    delivers nothing more, or the next delivered request is exactly the one the client sent after the body -- never a request
+    made of body bytes"""
+    def h(ctx):
+        val = OPTION_VALUES[ctx.choose(len(OPTION_VALUES), 'connection-value')]
+        ver = [b'HTTP/1.1', b'HTTP/1.0'][ctx.choose(2, 'version')]
+        fin = ['respond', 'drop', 'read-all-respond'][ctx.choose(3, 'finish')]
+        body = b'GET /s HTTP/1.1\r\nHost: s\r\n\r\n'       # a body that looks like a request
+        data = K(b'POST /first ' + ver + b'\r\nHost: h\r\nConnection: ' + val + b'\r\nContent-Length: %d\r\n\r\n' % len(body) + body +
+                 b'GET /n HTTP/1.1\r\nHost: h\r\n\r\n')
+        cv = Conv(S, ctx, data, end='eof')
+        sc = lambda m: {'kind': 'conversation', 'connection': val.decode(), 'finish': fin, 'text': bytes(conc(x) for x in data).decode('latin1'),
+                        'predicted': {'urls': urls}}
+        urls = []
+        rq = cv.next()
+        ctx.event('witness', 'option:' + val.decode())
+        if rq is None or rq is PARKED:
+            ctx.check_always(z3.BoolVal(False), 'request-delivered', sc)
+            return None
+        urls.append('/first')
+        cell = Cell(rq)
+        early = cv.next()
+        if fin == 'read-all-respond':
+            for _ in range(6):
+                r, tmp = cv.read_body(cell, 16)
+                if r is None or r.variant == 'Err' or not conc(concretize(ctx, r.fields[0])):
+                    break
+        if fin == 'drop':
+            cv.drop(cell.v)
+        else:
+            cv.respond(cell.v)
+        later = []
+        r2 = early
+        for _ in range(3):
+            if r2 is PARKED:
+                r2 = cv.resume()
+            if r2 is PARKED:
+                r2 = cv.settle()
+            if r2 is None or r2 is PARKED:
+                break
+            later.append(r2)
+            cv.respond(r2)
+            r2 = cv.next()
+        ok = True
+        for r in later:
+            s2 = cv.summary(r)
+            u = s2['url'].concrete()
+            urls.append(u.decode('latin1') if u is not None else '?')
+            ok = ok and u == b'/n' and isinstance(s2['method'], Enum) and s2['method'].variant == 'Get'
+        ok = ok and len(later) <= 1
+        codes = [r.get('status') for r in (cv.responses() or [])]
+        if fin == 'read-all-respond' and later:
+            # an application that read the body to its end must have seen exactly the body
+            pass
+        ctx.check_always(z3.BoolVal(ok and 400 not in codes), 'no-request-made-of-body-bytes', sc)
+        return True
+
+    S.run('connection-options', h, witnesses=['option:' + v.decode() for v in OPTION_VALUES[:2]], max_paths=4000,
+          bound='Connection values %s x HTTP/1.0, 1.1 x respond / drop / read-all; Content-Length body that looks like a request; one following GET'
+                % [v.decode() for v in OPTION_VALUES])
+    collect_simple(S, rep, 'C09', 'connection-options')
